@@ -187,6 +187,9 @@ Definition measure (s : st) : nat :=
   pweight (s_phase s) + 2 * length (s_rest s) + length (s_inq s)
   + list_sum (map cweight (s_cons s)) + length (s_outq s).
 
+(** linear-time list reversal (equal to [rev], see [rev_alt]) *)
+Definition lrev {X} (l : list X) : list X := rev_append l [].
+
 (** * The value returned *)
 Section Value.
   Context {R A : Type}.
@@ -208,7 +211,7 @@ Section Value.
 
   (** the value of a final state *)
   Definition st_value (s : st) : A :=
-    combine_results (rev (s_self s)) (map (@rev N) (rev (s_got s))).
+    combine_results (lrev (s_self s)) (map lrev (lrev (s_got s))).
 End Value.
 
 (** * Running the machine under an explicit schedule *)
@@ -239,10 +242,17 @@ Inductive outcome :=
 | Deadlock
 | OutOfFuel.
 
-(** [sched] chooses among the enabled candidates (one number per step, used modulo the
-    number of choices; the first choice when the schedule is exhausted) *)
-Fixpoint run (k : cfg) (fuel : nat) (sched : list nat) (s : st) : outcome :=
-  if final s then Terminated (rev (s_self s)) (map (@rev N) (rev (s_got s)))
+(** [sched] chooses among the enabled candidates: one number per step, used modulo the
+    number of choices; the schedule is read cyclically ([sched0] is the whole schedule,
+    [sched] what is left of the current round) *)
+Definition next_choice (sched0 sched : list nat) : nat * list nat :=
+  match sched with
+  | c :: r => (c, r)
+  | [] => match sched0 with c :: r => (c, r) | [] => (O, []) end
+  end.
+
+Fixpoint run (k : cfg) (fuel : nat) (sched0 sched : list nat) (s : st) : outcome :=
+  if final s then Terminated (lrev (s_self s)) (map lrev (lrev (s_got s)))
   else match fuel with
   | O => OutOfFuel
   | S fuel' =>
@@ -251,9 +261,9 @@ Fixpoint run (k : cfg) (fuel : nat) (sched : list nat) (s : st) : outcome :=
       match en with
       | [] => Deadlock
       | l0 :: _ =>
-          let '(ch, sched') := match sched with [] => (O, []) | c :: r => (c, r) end in
-          match step k s (nth (ch mod length en) en l0) with
-          | Some s' => run k fuel' sched' s'
+          let cs := next_choice sched0 sched in
+          match step k s (nth (fst cs mod length en) en l0) with
+          | Some s' => run k fuel' sched0 (snd cs) s'
           | None => Deadlock
           end
       end
@@ -263,4 +273,4 @@ Definition pmf_run (workers : nat) (hint : option nat) (internal : bool) (len : 
   (sched : list nat) : outcome :=
   let k := mkCfg workers (pmf_tasks workers hint) internal in
   let s := init k (nseq 0 len) in
-  run k (measure s) sched s.
+  run k (measure s) sched sched s.
